@@ -57,6 +57,9 @@ pub enum Spelling {
     Full,
     NoBlanks,
     DoubleBlanks,
+    /// minimal, but a unary minus applied to a negative literal is written `--1 X` instead of `-(-1 X)`
+    /// (not derivable from doc/syntax.md: rejection is DON'T-CARE; if it is read, minus must negate)
+    StackedMinus,
 }
 
 fn leaf_str(v: &str, c: &str) -> String {
@@ -74,7 +77,7 @@ pub fn show(t: &T, parent: u8, right: bool, sp: Spelling) -> String {
         T::Leaf(v, c) => leaf_str(v, c),
         // okane's unary minus applies to a value-expr: a literal or a parenthesised expression
         T::Neg(x) => match **x {
-            T::Leaf(v, _) if !v.starts_with('-') => format!("-{}", show(x, 4, false, sp)),
+            T::Leaf(v, _) if !v.starts_with('-') || sp == Spelling::StackedMinus => format!("-{}", show(x, 4, false, sp)),
             _ => format!("-({})", show(x, 0, false, sp)),
         },
         T::Bin(op, l, r) => {
@@ -88,9 +91,7 @@ pub fn show(t: &T, parent: u8, right: bool, sp: Spelling) -> String {
                 (show(l, p, false, sp), show(r, p, true, sp))
             };
             match sp {
-                // `0-0` would be lexed as one (malformed) number token: whether that documented spelling is read is
-                // C05's business, so keep one blank before a minus that follows a digit
-                Spelling::NoBlanks if *op == '-' && ls.ends_with(|c: char| c.is_ascii_digit()) => format!("{} {}{}", ls, op, rs),
+                // `3-1 X` is the documented spelling of 3 - 1 X (add-expr ::= mul-expr (sp* [+-] sp* mul-expr)*)
                 Spelling::NoBlanks => format!("{}{}{}", ls, op, rs),
                 Spelling::DoubleBlanks => format!("{}  {}  {}", ls, op, rs),
                 _ => format!("{} {} {}", ls, op, rs),
@@ -394,7 +395,14 @@ fn run(ctx: &mut Ctx) {
                 format!("[{:?}, {:?}] {}", cx, sp, e)
             },
             || {
-                let (d, o) = judge(cx, sp, &t);
+                let (d, mut o) = judge(cx, sp, &t);
+                if sp == Spelling::StackedMinus {
+                    if let crate::fw::Verdict::Violation { sig, .. } = &o.verdict {
+                        if sig.contains("well-typed-rejected") {
+                            o = Outcome::dont_care("stacked-minus/rejected");
+                        }
+                    }
+                }
                 *cell.borrow_mut() = Some((d, o.clone()));
                 o
             },
@@ -406,6 +414,21 @@ fn run(ctx: &mut Ctx) {
         }
         for t in &l2 {
             emit(ctx, cx, Spelling::Minimal, t);
+        }
+    }
+    // unary minus stacked on a negative literal (`--1 X`), every context
+    fn stacked(t: &T) -> bool {
+        match t {
+            T::Leaf(..) => false,
+            T::Neg(x) => matches!(&**x, T::Leaf(v, _) if v.starts_with('-')) || stacked(x),
+            T::Bin(_, l, r) => stacked(l) || stacked(r),
+        }
+    }
+    for cx in contexts {
+        for t in l0.iter().chain(l1n.iter()).chain(l2.iter()) {
+            if stacked(t) {
+                emit(ctx, cx, Spelling::StackedMinus, t);
+            }
         }
     }
     // spelling deviations on the <= 2 operator trees, in the two most different contexts
